@@ -27,6 +27,8 @@ mod server;
 mod socket;
 mod window;
 mod worker;
+#[cfg(feature = "verif")]
+pub mod verif;
 
 #[cfg(feature = "client")]
 pub use client::Client;
